@@ -341,3 +341,54 @@ Section R.
     rewrite orb_true_iff, Rleb_true, Rltb_true. unfold N. num_R. tauto.
   Qed.
 End R.
+
+(* ------------------------------------------------------------------ *)
+(* extension: angular_separation with psi_floor                         *)
+Section RFloor.
+  Variable erf : R -> R.
+  Notation N := (RNum erf).
+
+  Lemma K_as_has_floor o : as_has_floor o = match o with None => false | Some _ => true end.
+  Proof. destruct o; reflexivity. Qed.
+  Lemma K_as_floor psi f : as_floor N psi f = Rmax f psi.
+  Proof.
+    unfold as_floor. cbn [nltb RNum]. unfold Rmax.
+    destruct (Rltb psi f) eqn:E; [apply Rltb_true in E|apply Rltb_false in E]; destruct (Rle_dec f psi); lra.
+  Qed.
+
+  Theorem angsep_floor_none ra1 dec1 ra2 dec2 :
+    angsep_floor N ra1 dec1 ra2 dec2 None = acos (gc_dot ra1 dec1 ra2 dec2).
+  Proof. unfold angsep_floor. cbv zeta. rewrite K_as_has_floor. apply angsep_great_circle. Qed.
+
+  Theorem angsep_floor_some ra1 dec1 ra2 dec2 f :
+    angsep_floor N ra1 dec1 ra2 dec2 (Some f) = Rmax f (acos (gc_dot ra1 dec1 ra2 dec2)).
+  Proof. unfold angsep_floor. cbv zeta. rewrite K_as_has_floor, K_as_floor. now rewrite angsep_great_circle. Qed.
+
+  Theorem angsep_floor_props ra1 dec1 ra2 dec2 f :
+    let v := angsep_floor N ra1 dec1 ra2 dec2 (Some f) in
+    let psi := angsep_floor N ra1 dec1 ra2 dec2 None in
+    f <= v /\ psi <= v /\ (v = f \/ v = psi) /\ (f <= psi -> v = psi) /\ (psi < f -> v = f)
+    /\ (f <= PI -> 0 <= f -> 0 <= v <= PI).
+  Proof.
+    cbv zeta. rewrite angsep_floor_some, angsep_floor_none.
+    pose proof (acos_bound (gc_dot ra1 dec1 ra2 dec2)) as (B1 & B2).
+    set (p := acos _) in *. unfold Rmax. destruct (Rle_dec f p); repeat split; try lra; auto; try (intros; lra).
+  Qed.
+
+  Lemma angsep_floor_list_spec rows o :
+    angsep_floor_list N rows o
+    = map (fun r => angsep_floor N (fst (fst (fst r))) (snd (fst (fst r))) (snd (fst r)) (snd r) o) rows.
+  Proof. reflexivity. Qed.
+
+  Example angsep_floor_example :
+    angsep_floor N 0 0 0 0 (Some 1) = 1 /\ angsep_floor N 0 0 0 0 None = 0
+    /\ angsep_floor N 0 0 0 0 (Some (-1)) = 0.
+  Proof.
+    rewrite !angsep_floor_some, !angsep_floor_none. unfold gc_dot.
+    replace (0 - 0) with 0 by ring. rewrite sin_0, cos_0.
+    replace (0 * 0 + 1 * 1 * 1) with 1 by ring. rewrite acos_1.
+    unfold Rmax. repeat split.
+    - destruct (Rle_dec 1 0); lra.
+    - destruct (Rle_dec (-1) 0); lra.
+  Qed.
+End RFloor.
